@@ -813,6 +813,84 @@ theorem strncat_spec (m : Mem) (s1 s2 : Nat) (a c : List Byte) (n fuel : Nat) (h
   exact ⟨holds_of_sameOutside (cstr_prefix_holds (r := []) (by simpa using ha)).1 ho (by omega), hh⟩
 
 
+/-! ### ctype (round 3): igris/util/ctype.h and the libc wrappers of compat/libc/include/ctype.h
+  For EVERY argument ISO C 7.4 allows (EOF and the 256 values of `unsigned char`:
+  `ctypeArg i`, `i : Fin 257`) each classification function is non-zero exactly
+  on the members of its "C"-locale class (class table `cLocaleTable` in
+  Spec.lean, written independently of the range tests of the code) and each
+  conversion moves exactly the letters of the other case.  All 257 cases are
+  evaluated by the kernel.  `iscntrl`, `isgraph`, `ispunct` are commented out in
+  the header (not provided), so there is nothing to state for them. -/
+
+theorem isupper_c_locale : ∀ i : Fin 257, (isupperI (ctypeArg i) != 0) = inClass (ctypeArg i) CL_U := by decide +kernel
+theorem islower_c_locale : ∀ i : Fin 257, (islowerI (ctypeArg i) != 0) = inClass (ctypeArg i) CL_L := by decide +kernel
+theorem isdigit_c_locale : ∀ i : Fin 257, (isdigitI (ctypeArg i) != 0) = inClass (ctypeArg i) CL_D := by decide +kernel
+theorem isalpha_c_locale : ∀ i : Fin 257, (isalphaI (ctypeArg i) != 0) = inClass (ctypeArg i) (CL_U ||| CL_L) := by decide +kernel
+theorem isalnum_c_locale : ∀ i : Fin 257, (isalnumI (ctypeArg i) != 0) = inClass (ctypeArg i) (CL_U ||| CL_L ||| CL_D) := by decide +kernel
+theorem isxdigit_c_locale : ∀ i : Fin 257, (isxdigitI (ctypeArg i) != 0) = inClass (ctypeArg i) (CL_D ||| CL_X) := by decide +kernel
+theorem isspace_c_locale : ∀ i : Fin 257, (isspaceI (ctypeArg i) != 0) = inClass (ctypeArg i) CL_S := by decide +kernel
+theorem isblank_c_locale : ∀ i : Fin 257, (isblankI (ctypeArg i) != 0) = inClass (ctypeArg i) CL_B := by decide +kernel
+/-- printing characters: letters, digits, punctuation and the space character -/
+theorem isprint_c_locale : ∀ i : Fin 257, (isprintI (ctypeArg i) != 0) =
+    inClass (ctypeArg i) (CL_U ||| CL_L ||| CL_D ||| CL_P ||| CL_SP) := by decide +kernel
+/-- tolower: an upper-case letter goes to the letter 32 above it; everything else (EOF included) is returned unchanged -/
+theorem tolower_c_locale : ∀ i : Fin 257, tolowerC (ctypeArg i) =
+    if inClass (ctypeArg i) CL_U then ctypeArg i + 32 else ctypeArg i := by decide +kernel
+theorem toupper_c_locale : ∀ i : Fin 257, toupperC (ctypeArg i) =
+    if inClass (ctypeArg i) CL_L then ctypeArg i - 32 else ctypeArg i := by decide +kernel
+/-- toascii keeps the low seven bits (EOF ↦ 127) -/
+theorem toascii_c_locale : ∀ i : Fin 257, toasciiI (ctypeArg i) = ctypeArg i % 128 := by decide +kernel
+/-- every classification function returns exactly 0 or 1 (a C truth value), for every `int` -/
+theorem ctype_results_are_0_or_1 (c : Int) :
+    ∀ f ∈ [isupperI, islowerI, isdigitI, isalphaI, isalnumI, isxdigitI, isspaceI, isblankI, isprintI, isasciiI],
+      f c = 0 ∨ f c = 1 := by
+  have ite01 : ∀ (p : Prop) [Decidable p], (if p then (1 : Int) else 0) = 0 ∨ (if p then (1 : Int) else 0) = 1 := by
+    intro p _; split <;> simp
+  intro f hf
+  simp only [List.mem_cons, List.not_mem_nil, or_false] at hf
+  rcases hf with rfl | rfl | rfl | rfl | rfl | rfl | rfl | rfl | rfl | rfl <;> exact ite01 _
+/-- for EVERY `int` outside 0..127 (not only the 257 ISO arguments): no class, conversions are the identity -/
+theorem ctype_outside_ascii (c : Int) (h : c < 0 ∨ 127 < c) :
+    isupperI c = 0 ∧ islowerI c = 0 ∧ isdigitI c = 0 ∧ isalphaI c = 0 ∧ isalnumI c = 0 ∧ isxdigitI c = 0 ∧
+    isspaceI c = 0 ∧ isblankI c = 0 ∧ isprintI c = 0 ∧ tolowerC c = c ∧ toupperC c = c := by
+  have e1 : isupperI c = 0 := by unfold isupperI; rw [if_neg (by omega)]
+  have e2 : islowerI c = 0 := by unfold islowerI; rw [if_neg (by omega)]
+  have e3 : isdigitI c = 0 := by unfold isdigitI; rw [if_neg (by omega)]
+  have e4 : isalphaI c = 0 := by unfold isalphaI; rw [if_neg (by omega)]
+  have e5 : isxdigitHelperI c = 0 := by unfold isxdigitHelperI; rw [if_neg (by omega)]
+  refine ⟨e1, e2, e3, e4, ?_, ?_, ?_, ?_, ?_, ?_, ?_⟩
+  · simp [isalnumI, e3, e4]
+  · simp [isxdigitI, e3, e5]
+  · unfold isspaceI; rw [if_neg (by omega)]
+  · unfold isblankI; rw [if_neg (by omega)]
+  · unfold isprintI; rw [if_neg (by rw [e3, e4]; omega)]
+  · simp [tolowerC, e1]
+  · simp [toupperC, e2]
+/-- the two spellings of the conversions agree for every `int`: `tolowerI/toupperI` (range test inlined; used by
+strcasecmp & co.) = `tolowerC/toupperC` (through the predicate, as igris/util/ctype.h writes them) -/
+theorem tolower_twins_agree (c : Int) : tolowerC c = tolowerI c ∧ toupperC c = toupperI c := by
+  unfold tolowerC tolowerI toupperC toupperI isupperI islowerI
+  constructor <;> split <;> split <;> simp_all <;> omega
+/-- isascii (POSIX: defined on ALL integer values, true exactly for 0..127) — for every 32-bit `int`
+(`fix: isascii converts to unsigned`) -/
+theorem isascii_spec (c : Int) (hc : -2147483648 ≤ c ∧ c ≤ 2147483647) :
+    isasciiI c = if 0 ≤ c ∧ c ≤ 127 then 1 else 0 := by
+  unfold isasciiI
+  rw [BitVec.toNat_ofInt]
+  by_cases h : 0 ≤ c ∧ c ≤ 127
+  · rw [if_pos h, if_pos (by omega)]
+  · rw [if_neg h, if_neg (by omega)]
+/-- historical: `((unsigned char)(c)) <= 0x7f` called 321 (= 256 + 'A') an ASCII character -/
+theorem isasciiOrig_witness : isasciiOrig 321 = 1 := by decide
+
+/-- the class table is not degenerate: 26 + 26 letters, 10 digits, 6 white-space characters, 95 printing ones -/
+example : ((List.range 128).filter fun c => inClass (c : Nat) CL_U).length = 26 ∧
+    ((List.range 128).filter fun c => inClass (c : Nat) CL_L).length = 26 ∧
+    ((List.range 128).filter fun c => inClass (c : Nat) CL_D).length = 10 ∧
+    ((List.range 128).filter fun c => inClass (c : Nat) CL_S).length = 6 ∧
+    ((List.range 128).filter fun c => inClass (c : Nat) (CL_U ||| CL_L ||| CL_D ||| CL_P ||| CL_SP)).length = 95 := by decide +kernel
+example : ctypeArg 0 = -1 ∧ ctypeArg 256 = 255 := by decide
+
 /-! ### non-vacuity: the hypotheses used above are satisfiable (concrete memories) -/
 
 example : CStr exMem 8 [97#8, 98#8, 99#8] := by
